@@ -1,5 +1,6 @@
 import TexcraftModel.Lemmas.C14
 import TexcraftModel.Lemmas.C14Words
+import TexcraftModel.Lemmas.C14Recon
 
 /-!
 # C14 — property theorems
@@ -150,5 +151,60 @@ example : render exMarks [false, false, true, false, true, false, false, false, 
 /-- P2 is not vacuous: a post-break that loses the `i` is rejected. -/
 example : P2 [true, false] [.disc [.char 102 0, .char 45 0] [.char 102 0] 1, .lig 14 0 [102, 102, 105] false false] = false := by
   decide
+
+/-! ## The reconstitution model (`Model/C14Recon.lean`)
+
+`rebuildWord eng font s rbo dlb pos` transcribes l.290–553 of `hyphenate_impl` over an abstract
+lig/kern engine `eng` (`run` = `run_with_options` with `is_separation_point()` after every item,
+`hasRepl` = `has_replacement`). The only law of the engine the theorems need is C05's `spell`
+(`EngineOK`); `engineOfProgram_ok` shows that C05's model of a compiled program has it for every
+program, also with `right_boundary_override` and `disable_left_boundary`. `none` = the Rust code
+would panic or not terminate; the theorems are about the runs that return. -/
+
+/-- The engine built from C05's model of `CompiledProgram::compile` + `RunIter` satisfies the law,
+for every lig/kern program (loops, redirects, boundary rules, anything). -/
+theorem c05_engine_ok (p : C05.Program) : EngineOK (engineOfProgram p) := engineOfProgram_ok p
+
+/-- **P1 for the model.** For every engine that spells, every word `s`, every list of positions
+(sorted or not, in range or not), every option combination: if the rebuilding returns, then the
+marked nodes of its output are discretionaries, and deleting them gives the main run of the word
+(`run_with_options(s, {dlb, rbo})`), node for node. -/
+theorem reconstitute_P1 (eng : Engine) (he : EngineOK eng) (font : Nat) (s : List Nat) (rbo : Option Nat)
+    (dlb : Bool) (pos : List Nat) (out : List (Item × Bool))
+    (h : rebuildWord eng font s rbo dlb pos = some out) :
+    P1 (out.map (·.2)) (out.map (·.1)) (((eng.run dlb rbo s).map (·.1)).map (toItem font)) = true := by
+  have := rebuildWord_base he font s rbo dlb pos out h
+  simp only [P1, Bool.and_eq_true, decide_eq_true_eq]
+  exact ⟨this.2.1, this.1⟩
+
+/-- **P2 for the model.** Under the same hypotheses: at every inserted discretionary the pre-break
+letters end with the hyphen, and without it, followed by the post-break letters, they are the
+letters of the `replace_count` nodes the discretionary covers, which are original nodes inside the
+word's output. This is the invariant of the three lock-stepped runs: `start_of_separation_point ≤
+hyphen ≤ chars_pushed`, the post-break run has consumed `chars_pushed − hyphen` characters when
+the synchronisation loop exits, and every run spells its input. -/
+theorem reconstitute_P2 (eng : Engine) (he : EngineOK eng) (font : Nat) (s : List Nat) (rbo : Option Nat)
+    (dlb : Bool) (pos : List Nat) (out : List (Item × Bool))
+    (h : rebuildWord eng font s rbo dlb pos = some out) :
+    P2 (out.map (·.2)) (out.map (·.1)) = true :=
+  (rebuildWord_base he font s rbo dlb pos out h).2.2
+
+/-- **Conservation for the model**, for every subset of breaks: whatever discretionaries of the
+rebuilt word the line breaker takes, the reader sees the letters of the word. -/
+theorem reconstitute_conserves (eng : Engine) (he : EngineOK eng) (font : Nat) (s : List Nat) (rbo : Option Nat)
+    (dlb : Bool) (pos : List Nat) (out : List (Item × Bool)) (taken : List Bool)
+    (h : rebuildWord eng font s rbo dlb pos = some out) (hl : taken.length = out.length) :
+    render (out.map (·.2)) taken (out.map (·.1)) 0 = s := by
+  have := disc_invariants_conserve _ taken _ _ (reconstitute_P1 eng he font s rbo dlb pos out h)
+    (reconstitute_P2 eng he font s rbo dlb pos out h) (by simpa using hl)
+  rw [this, lettersL_toItem, he.spell]
+
+/-- Non-vacuity: `dif-fi-cult` with the rules `f f → ff`, `ff i → ffi`, `f i → fi` (as in cmr10). -/
+private def exProg : C05.Program :=
+  { instrs := [⟨some 0, 102, .lig 11 .neither⟩, ⟨none, 105, .lig 12 .neither⟩, ⟨none, 105, .lig 14 .neither⟩],
+    lbEntry := none, rb := none, entries := [(102, 0), (11, 2)], kerns := [] }
+
+example : (rebuildWord (engineOfProgram exProg) 0 [100, 105, 102, 102, 105, 99, 117, 108, 116] none true [3, 5]).map
+    (fun o => o.map (·.1)) = some exOut := by decide
 
 end C14
